@@ -12,7 +12,7 @@ import ast, os, re
 from extract import Site, Tr, REPO, find_func, lean_str
 
 LEAN_MODULE = 'Rpc'
-IMPORTS = []
+IMPORTS = ['SupervisorModel.Model.RpcText']
 OPENS = []
 
 
@@ -256,8 +256,51 @@ _traverse = Site('supervisor/xmlrpc.py', 'traverse', 'traverse',
                  {}, want={'traverse_g0', 'traverse_g1', 'traverse_g2', 'traverse_g3'})
 _traverse.tr_class = TraverseTr
 
+class ResponseTr(Tr):
+    """the response builders, by role:  xmlrpc_marshal(<x>) -> the response text `bodyText` (code points),
+    as_bytes(<t>) -> its UTF-8 encoding"""
+    def role(self, e):
+        n = 0
+        while isinstance(e, ast.Name) and e.id in self.locals and n < 8:
+            e = self.locals[e.id]; n += 1
+        if isinstance(e, ast.Call) and isinstance(e.func, ast.Name):
+            if e.func.id == 'xmlrpc_marshal' and len(e.args) == 1:
+                return ('bodyText', 'lean:List Char')
+            if e.func.id == 'as_bytes' and len(e.args) == 1:
+                inner = self.role(e.args[0])
+                try:
+                    x, t = inner if inner else (Tr.expr(self, e.args[0]), Tr.typ(self, e.args[0]))
+                except Exception:
+                    return None
+                if t == 'lean:List Char':
+                    return ('(Sv.Rpc.utf8Of %s)' % x, 'bytes')
+                if t == 'bytes':
+                    return (x, 'bytes')
+        return None
+
+    def typ(self, e):
+        r = self.role(e)
+        return r[1] if r else Tr.typ(self, e)
+
+    def expr(self, e):
+        r = self.role(e)
+        return r[0] if r else Tr.expr(self, e)
+
+
+# immediate answers: `body = as_bytes(xmlrpc_marshal(value)); request['Content-Length'] = len(body); request.push(body)`
+_immediate = Site('supervisor/xmlrpc.py', 'supervisor_xmlrpc_handler.continue_request', 'contReq', '(bodyText : List Char)', {},
+                  want={'contReq_a9', 'contReq_c0_0'}, calls=('request.push',))
+_immediate.tr_class = ResponseTr
+# deferred answers: more() marshals and hands the body to getresponse(), which sets Content-Length = len(body) and pushes it
+_defmore = Site('supervisor/xmlrpc.py', 'DeferredXMLRPCResponse.more', 'defMore', '(bodyText : List Char)', {},
+                want={'defMore_c0_0'}, calls=('self.getresponse',))
+_defmore.tr_class = ResponseTr
+_defresp = Site('supervisor/xmlrpc.py', 'DeferredXMLRPCResponse.getresponse', 'defResp', '(body : List Char)',
+                {'body': ('body', 'lean:List Char')}, want={'defResp_a1', 'defResp_c0_0'}, calls=('self.request.push',))
+_defresp.tr_class = ResponseTr
+
 SITES = [
-    _traverse,
+    _traverse, _immediate, _defmore, _defresp,
     # g0: isinstance(mood, int) and mood < SupervisorStates.RUNNING
     Site('supervisor/rpcinterface.py', 'SupervisorNamespaceRPCInterface._update', 'update', '(moodIsInt : Bool) (mood : Int)',
          {'isinstance(self.supervisord.options.mood, int)': ('moodIsInt', 'bool'), 'self.supervisord.options.mood': ('mood', 'int')},
